@@ -16,6 +16,7 @@ import (
 
 	"storj.io/drpc"
 	"storj.io/drpc/drpcerr"
+	"storj.io/drpc/drpcmux"
 
 	"verifharness/census"
 	"verifharness/director"
@@ -563,6 +564,103 @@ func decodeOutlivesItsRPC(id string, seed uint64) runner.Result {
 	return res
 }
 
+// kvMsg / kvEnc: a message with two optional fields and an encoding that, like encoding/json, fills
+// in only the fields present in the input.
+type kvMsg struct{ A, B string }
+
+type kvEnc struct{}
+
+func (kvEnc) Marshal(m drpc.Message) ([]byte, error) {
+	v := m.(*kvMsg)
+	var out []string
+	if v.A != "" {
+		out = append(out, "a="+v.A)
+	}
+	if v.B != "" {
+		out = append(out, "b="+v.B)
+	}
+	return []byte(strings.Join(out, ";")), nil
+}
+
+func (kvEnc) Unmarshal(b []byte, m drpc.Message) error {
+	v := m.(*kvMsg)
+	for _, f := range strings.Split(string(b), ";") {
+		switch {
+		case strings.HasPrefix(f, "a="):
+			v.A = f[2:]
+		case strings.HasPrefix(f, "b="):
+			v.B = f[2:]
+		}
+	}
+	return nil
+}
+
+type kvSvc struct{}
+
+func (kvSvc) Echo(ctx context.Context, in *kvMsg) (*kvMsg, error) {
+	return &kvMsg{A: "saw:" + in.A + "|" + in.B}, nil
+}
+
+type kvDesc struct{}
+
+func (kvDesc) NumMethods() int { return 1 }
+func (kvDesc) Method(n int) (string, drpc.Encoding, drpc.Receiver, interface{}, bool) {
+	if n != 0 {
+		return "", nil, nil, nil, false
+	}
+	return "/kv/Echo", kvEnc{}, func(s interface{}, ctx context.Context, in1, in2 interface{}) (drpc.Message, error) {
+		return s.(kvSvc).Echo(ctx, in1.(*kvMsg))
+	}, kvSvc.Echo, true
+}
+
+// requestOfItsOwn: unary calls through the real mux, one after the other on one connection, with an
+// encoding that fills in only the fields a request carries. Each handler invocation sees the request
+// of its own call: a field the caller left out is empty, whatever earlier callers sent.
+func requestOfItsOwn(id string, seed uint64) runner.Result {
+	r := &payload.SplitMix{S: seed}
+	cfg := prog.GenConfig(r, false)
+	if cfg.Net.Cap == 0 {
+		cfg.Net.Cap = -1
+	}
+	mux := drpcmux.New()
+	if err := mux.Register(kvSvc{}, kvDesc{}); err != nil {
+		return runner.Inconcl(id, "Register: "+err.Error())
+	}
+	rg := rig.New(rig.Config{Net: cfg.Net, Client: cfg.Client, Server: cfg.Server}, mux)
+	defer rg.Teardown()
+	n := 3 + r.Intn(8)
+	var fails, hist []string
+	for i := 0; i < n && len(fails) == 0; i++ {
+		in := &kvMsg{}
+		if r.Intn(3) != 0 {
+			in.A = fmt.Sprintf("user%d", i)
+		}
+		if r.Intn(2) == 0 {
+			in.B = fmt.Sprintf("token%d", i)
+		}
+		hist = append(hist, fmt.Sprintf("{%s,%s}", in.A, in.B))
+		out := &kvMsg{}
+		op := rig.Go("invoke", func() (interface{}, error) {
+			return nil, rg.Conn.Invoke(context.Background(), "/kv/Echo", kvEnc{}, in, out)
+		})
+		if !op.Wait() {
+			return runner.Inconcl(id, "a unary call blocked")
+		}
+		if op.Err != nil {
+			fails = append(fails, fmt.Sprintf("call %d failed: %s", i+1, rig.ErrStr(op.Err)))
+		} else if want := "saw:" + in.A + "|" + in.B; out.A != want {
+			fails = append(fails, fmt.Sprintf("call %d sent {a=%q b=%q}; its handler reports %q, want %q", i+1, in.A, in.B, out.A, want))
+		}
+	}
+	desc := fmt.Sprintf("%s | unary calls through the mux with a fill-in-what-is-present encoding: %s", cfg.Desc, strings.Join(hist, " "))
+	if len(fails) > 0 {
+		return runner.Violation(id, "isolation:handler-saw-fields-of-an-earlier-request", desc+"\n"+strings.Join(fails, "\n"))
+	}
+	res := runner.Hold(id, desc, true)
+	res.Events = int64(n)
+	return res
+}
+
 // sentCh adapts a buffered notification channel to the closed-channel convention of QuiesceOr.
 func sentCh(c chan struct{}) <-chan struct{} {
 	out := make(chan struct{})
@@ -929,6 +1027,11 @@ func gen(tier string, seed uint64) []runner.Scenario {
 		i := i
 		id := fmt.Sprintf("flush-parked/%d", i)
 		out = append(out, runner.Scenario{ID: id, Run: func() runner.Result { return flushParked(id, payload.Hash(seed, 0xC02F, uint64(i))) }})
+	}
+	for i := 0; i < n/10; i++ {
+		i := i
+		id := fmt.Sprintf("request-of-its-own/%d", i)
+		out = append(out, runner.Scenario{ID: id, Run: func() runner.Result { return requestOfItsOwn(id, payload.Hash(seed, 0xC027, uint64(i))) }})
 	}
 	for i := 0; i < n/10; i++ {
 		i := i
